@@ -16,6 +16,7 @@ from mc.runner import Result
 
 PROPERTY = "C11"
 LEVEL = "model_checking"
+TECHNIQUE = "exhaustive enumeration of the dtype x reduction x option x plan table with block-by-block computation"
 ENGINE = "E1"
 RULE = (
     "state = (input dtype, reduction, dtype=, fill_value, min_count, engine, strategy = eager | (method, chunking of a 6-element axis)); "
